@@ -532,3 +532,11 @@ Section StackPipeline.
              (PF.reachU_reach cfg _ _ HR) Hc Hok Hpos Heos).
   Qed.
 End StackPipeline.
+
+(* the specified text after a configured list of plugin instances is the fold of the per-instance specifications, in
+   configured order - instances of the same class are separate elements of the list *)
+Lemma stack_spec_is_fold : forall ps t, stack_spec ps t = fold_left (fun cur p => plugin_spec p cur) ps t.
+Proof. induction ps as [|p ps IH]; intros t; [reflexivity|]. cbn [stack_spec fold_left]. apply IH. Qed.
+
+Lemma stack_spec_app : forall ps qs t, stack_spec (ps ++ qs) t = stack_spec qs (stack_spec ps t).
+Proof. induction ps as [|p ps IH]; intros qs t; [reflexivity|]. cbn [app stack_spec]. apply IH. Qed.
